@@ -159,13 +159,17 @@ def _pipeline_doc(w: Random, c: _Counter) -> tuple[dict, list[str]]:
         doc["transformations"] = [_ext_item(w, c)]
     injected: list[str] = []
     _inject(w, doc, "", injected, 0.45, root=True)
+    if gen.chance(w, 0.12):
+        # a typo at the end of a section: the load fails after earlier items were already built
+        sec = gen.pick(w, [k for k in ("transformations", "postprocessing", "finalizers") if k in doc])
+        doc[sec].append({"type": "no_such_item_type"})
     return doc, injected
 
 
 def generate(streams: core.Streams, tier: str) -> dict:
     w, s, f = streams["workload"], streams["schedule"], streams["fault"]
     c = _Counter()
-    n_pipes = w.choice([1, 1, 1, 2])
+    n_pipes = w.choice([1, 1, 2, 2])
     pipelines = {}
     injected_all = {}
     for i in range(n_pipes):
@@ -614,8 +618,8 @@ def _check_load_denial(sc: dict, op: dict, grant: dict, env: dict, res: dict, si
     pid = op["pipeline"]
     doc = sc["pipelines"][pid]
     it = _single(sc, pid, ("template",))
-    if it is None or sc.get("injected", {}).get(pid):
-        return None  # a document with smuggled keys may legitimately be rejected for those first
+    if it is None or sc.get("injected", {}).get(pid) or "no_such_item_type" in core.jdump(doc):
+        return None  # a document with smuggled keys or a typo may legitimately be rejected for those first
     if any(p.get("type") == "nest" for p in doc.get("postprocessing", [])):
         return None
     allowed = grant["vars"] or _truthy_env(env[VARS_ENV])
